@@ -43,7 +43,8 @@ fn split_counters() -> (usize, usize) {
 const HUGE: [u32; 5] = [65535, 65536, 65537, 92682, 131072];
 
 fn shape(t: &mut Tape) -> (u32, u32, &'static str) {
-    match t.weighted(&[60, 40, 40, 40, 36, 40]) {
+    match t.weighted(&[60, 40, 40, 40, 36, 40, 30]) {
+        6 => (t.range(600, 3000), t.range(2, 32), "strip"),
         0 => (t.range(1, 70), t.range(1, 70), "small"),
         1 => (t.range(1, 4), t.range(100, 3000), "tall"),
         2 => (t.range(100, 3000), t.range(1, 4), "wide"),
@@ -55,38 +56,62 @@ fn shape(t: &mut Tape) -> (u32, u32, &'static str) {
 
 #[derive(Clone, Debug)]
 enum Op {
-    Resize(ResizeSpec, Layout),
+    Resize(ResizeSpec, Layout, Layout),
     MulDiv { divide: bool, inplace: bool, pt: PixelType, w: u32, h: u32, ext: CpuExtensions, content: Content },
 }
 
 fn run_op(op: &Op, src: &[u8], threads: u32) -> Result<(Result<(), String>, Buf), String> {
     match op {
-        Op::Resize(spec, lay) => {
+        Op::Resize(spec, lay, slay) => {
             let ps = spec.pt.size();
             let init = vec![0xA5u8; spec.dw as usize * spec.dh as usize * ps];
             let mut parent = lay.place(ps, &init, |i| (i % 251) as u8, Placement::Heap);
+            let sparent = slay.place(ps, src, |i| (i * 7 % 253) as u8, Placement::Heap);
             let opts = spec.options();
-            struct Rz<'a> {
+            struct Outer<'a> {
                 spec: &'a ResizeSpec,
-                src: &'a [u8],
                 opts: &'a fr::ResizeOptions,
                 threads: u32,
+                lay: &'a Layout,
+                parent: &'a mut [u8],
             }
-            impl<'a> DstOp for Rz<'a> {
+            struct Inner<'a, S> {
+                spec: &'a ResizeSpec,
+                opts: &'a fr::ResizeOptions,
+                threads: u32,
+                src: &'a S,
+            }
+            impl<'a> layout::SrcOp for Outer<'a> {
+                type Out = Result<Result<Result<(), String>, String>, String>;
+                fn run<S: fr::IntoImageView + Sync>(self, s: &S) -> Self::Out {
+                    layout::with_dst_dyn(
+                        self.lay,
+                        self.spec.pt,
+                        self.parent,
+                        Inner { spec: self.spec, opts: self.opts, threads: self.threads, src: s },
+                    )
+                }
+            }
+            impl<'a, S: fr::IntoImageView + Sync> DstOp for Inner<'a, S> {
                 type Out = Result<Result<(), String>, String>;
                 fn run<D: fr::IntoImageViewMut + Send>(self, dst: &mut D) -> Self::Out {
-                    let (spec, src, opts) = (self.spec, self.src, self.opts);
+                    let (spec, opts, src) = (self.spec, self.opts, self.src);
                     catch(|| {
                         exec::in_pool(self.threads, || {
-                            let s = ImageRef::new(spec.sw, spec.sh, src, spec.pt).map_err(|e| format!("{:?}", e))?;
                             let mut rz = img::new_resizer(spec.ext);
-                            rz.resize(&s, dst, opts).map_err(|e| format!("{:?}", e))
+                            rz.resize(src, dst, opts).map_err(|e| format!("{:?}", e))
                         })
                     })
                 }
             }
-            let r = layout::with_dst_dyn(lay, spec.pt, parent.bytes_mut(), Rz { spec, src, opts: &opts, threads })
-                .map_err(|e| format!("destination container rejected: {}", e))??;
+            let r = layout::with_src_dyn(
+                slay,
+                spec.pt,
+                sparent.bytes(),
+                Outer { spec, opts: &opts, threads, lay, parent: parent.bytes_mut() },
+            )
+            .map_err(|e| format!("source container rejected: {}", e))?
+            .map_err(|e| format!("destination container rejected: {}", e))??;
             if let Some(off) = lay.outside_changed(ps, parent.bytes(), |i| (i % 251) as u8) {
                 return Err(format!(
                     "bytes outside the destination view were modified at offset {} ({})",
@@ -173,6 +198,7 @@ fn check(tape: &[u8], _ctx: &Ctx) -> Outcome {
             2 => dw = sw,
             _ => {}
         }
+        let _ = (&mut dw, &mut dh);
         // keep the destination below 2^22 pixels
         while dw as u64 * dh as u64 > (1 << 21) {
             if dw >= dh && passes != 2 {
@@ -190,11 +216,23 @@ fn check(tape: &[u8], _ctx: &Ctx) -> Outcome {
             4 => AlgSpec::Super(FilterSpec::Builtin(t.below(7) as u8), 1 + t.below(3) as u8),
             _ => AlgSpec::Conv(FilterSpec::Builtin(1)),
         };
-        let crop = if t.chance(60) && sw > 2 && sh > 2 {
-            CropSpec::Box { l: 1.0, t: 1.0, w: sw as f64 - 1.5, h: sh as f64 - 1.25 }
+        let crop = if t.chance(90) && sw > 2 && sh > 2 {
+            // a crop whose first used row / column is not 0, so that the passes run with a source offset
+            let top = [1.0, 3.0, (sh / 2) as f64][t.below(3) as usize].min(sh as f64 - 2.0).max(0.0);
+            let left = [1.0, 0.0, (sw / 3) as f64][t.below(3) as usize].min(sw as f64 - 2.0).max(0.0);
+            let frac = if t.bool() { 0.25 } else { 0.0 };
+            CropSpec::Box { l: left, t: top, w: sw as f64 - left - frac * 2.0, h: sh as f64 - top - frac }
         } else {
             CropSpec::None
         };
+        if let CropSpec::Box { w, h, .. } = crop {
+            if passes == 1 && h == h.round() && h >= 1.0 {
+                dh = h as u32;
+            }
+            if passes == 2 && w == w.round() && w >= 1.0 {
+                dw = w as u32;
+            }
+        }
         let spec = ResizeSpec {
             pt,
             sw,
@@ -213,18 +251,27 @@ fn check(tape: &[u8], _ctx: &Ctx) -> Outcome {
         } else {
             Layout::plain(spec.dw, spec.dh)
         };
-        let d = format!("resize ({}) {} into {}", sname, spec.desc(), lay.desc());
-        (Op::Resize(spec, lay), d)
+        let slay = if t.chance(80) {
+            Layout::decode(&mut t, spec.sw, spec.sh, &[LKind::Cropped, LKind::Nested, LKind::CroppedMutAsSrc])
+        } else {
+            Layout::plain(spec.sw, spec.sh)
+        };
+        let d = format!("resize ({}) {} from {} into {}", sname, spec.desc(), slay.desc(), lay.desc());
+        (Op::Resize(spec, lay, slay), d)
     };
-    let threads = match t.below(4) {
+    let mut threads = match t.below(4) {
         0 => 2,
         1 => t.range(2, 8),
         2 => t.range(9, 32),
         _ => 16,
     };
+    if sname == "strip" && t.bool() {
+        // at least one thread per row: one-row bands
+        threads = threads.max(sh).min(32);
+    }
     let mut o = Outcome::new(format!("{} ; pool of {} threads x3 vs pool of 1", desc, threads));
     let (pt, w, h) = match &op {
-        Op::Resize(s, _) => (s.pt, s.sw, s.sh),
+        Op::Resize(s, _, _) => (s.pt, s.sw, s.sh),
         Op::MulDiv { pt, w, h, .. } => (*pt, *w, *h),
     };
     let mut src = img::make_image(pt, w, h, content, Placement::Heap);
